@@ -95,7 +95,7 @@ __CPROVER_ensures(!g_top_site || gw_n_old < 2 ||
                   (NPB(p) == OLD(NPB(p)) && BPEQ(PB(p)[g_w].first, gw_file, gw_line) && SITES(p, g_w)._n == gw_n_old - 1 &&
                    SITES(p, g_w)._d == gw_d_old)) /*@C08*/
 __CPROVER_ensures(!g_top_site || gw_n_old != 1 || NPB(p) == OLD(NPB(p)) - 1) /*@C08*/
-__CPROVER_ensures(!g_top_site || g_s >= gw_n_old || g_s + 1 >= gw_n_old || gw_d_old[g_s] == gs_val) /*@C08*/
+__CPROVER_ensures(!g_top_site || g_s >= gw_n_old || g_s + 1 >= gw_n_old || SITES(p, g_w)._d[g_s] == gs_val) /*@C08*/
 /* every other entry is kept (possibly moved into the hole of an erased entry) */
 __CPROVER_ensures(!g_top_site || g_o >= OLD(NPB(p)) || g_o == g_w || (g_o < NPB(p) && PB_O_SAME_AT(p, g_o)) || (g_w < NPB(p) && PB_O_SAME_AT(p, g_w))) /*@C08*/;
 
